@@ -196,3 +196,50 @@ func VerifC15HandlerLimits() {
 	}
 	verifAssert(rw.sent <= 1, "at most one reply per request")
 }
+
+// ---- GetBlocksMsg: the RLP stream is a cut (typed havoc): a list of K hashes, every one of which the node knows
+var c15StreamLeft int
+
+type c15StreamToken struct{ _ int }
+
+func verifModelStreamList(s *rlpStream) (uint64, error) { return 0, nil }
+func verifModelStreamDecode(s *rlpStream, val interface{}) error {
+	if c15StreamLeft == 0 {
+		return rlpEOL
+	}
+	c15StreamLeft--
+	if h, ok := val.(*types.Hash); ok {
+		*h = c16Hash(0, uint64(c15StreamLeft+1))
+		return nil
+	}
+	verifAssert(false, "decode target not modelled")
+	return nil
+}
+
+func (c *c15CountingChain) GetBlock(hash types.Hash) *nom.DetailedMomentum {
+	return &nom.DetailedMomentum{Momentum: &nom.Momentum{Height: 5, Hash: hash, TimestampUnix: 1700000000}}
+}
+
+// VerifC15GetBlocksReplyCap: a GetBlocksMsg naming K known hashes (K up to 130) is answered with at most
+// MaxBlockFetch momentums, in one reply.
+func VerifC15GetBlocksReplyCap() {
+	cm := &c15CountingChain{F: 1000}
+	pm := &ProtocolManager{chainman: cm}
+	rw := &c15RW{}
+	c15CurRW = rw
+	k := verifNondetLen("hashes in the request (index into {0,1,127,128,129,130})", 0, 5)
+	c15StreamLeft = []int{0, 1, 127, 128, 129, 130}[k]
+	K := c15StreamLeft
+	rw.msg = p2p.Msg{Code: GetBlocksMsg, Size: uint32(33 * K)}
+	p := &peer{rw: rw, id: "peer"}
+	err := pm.handleMsg(p)
+	verifAssert(err == nil, "a well-formed block request is served")
+	verifAssert(rw.sent == 1 && rw.codes[0] == BlocksMsg, "exactly one BlocksMsg reply")
+	want := K
+	if want > downloader.MaxBlockFetch {
+		want = downloader.MaxBlockFetch
+	}
+	verifReach("request above the cap", K > downloader.MaxBlockFetch)
+	verifAssert(rw.count[0] <= downloader.MaxBlockFetch, "never more than MaxBlockFetch momentums per reply")
+	verifAssert(rw.count[0] == want, "reply carries min(K, MaxBlockFetch) momentums")
+}
